@@ -81,3 +81,42 @@ class StepBudget:
         mon.register_callback(TOOL, mon.events.LINE, None)
         StepBudget._active = None
         return False
+
+
+class PersistentBudget:
+    """Like StepBudget, but LINE events stay enabled on the code objects for
+    the life time of the object; ``begin(limit)`` / ``end()`` only reset the
+    counter.  Much cheaper when millions of short calls are measured."""
+
+    def __init__(self, codes):
+        self.codes = codes
+        self.limit = None
+        self.steps = 0
+        try:
+            mon.use_tool_id(TOOL, 'verif-budget')
+        except ValueError:
+            pass
+        mon.register_callback(TOOL, mon.events.LINE, self._cb)
+        for c in codes:
+            mon.set_local_events(TOOL, c, mon.events.LINE)
+
+    def _cb(self, code, line):
+        if self.limit is None:
+            return None
+        self.steps += 1
+        if self.steps > self.limit:
+            self.limit = None
+            raise BudgetExceeded(f'{self.steps} steps over budget')
+
+    def begin(self, limit):
+        self.steps = 0
+        self.limit = limit
+
+    def end(self):
+        self.limit = None
+        return self.steps
+
+    def close(self):
+        for c in self.codes:
+            mon.set_local_events(TOOL, c, 0)
+        mon.register_callback(TOOL, mon.events.LINE, None)
